@@ -318,7 +318,8 @@ def _iso_algebra(model, rep):
                         args[3] if len(args) > 3 else None) is tind))
             return Jm[i, j]
         obj = Obj(cls, {"dim": dim, "J": PyFunc(Jf)})
-        for meth, kind in (("detDF", "det"), ("invDF", "inv")):
+        for meth, kind in (("DF", "jac"), ("detDF", "det"),
+                           ("invDF", "inv")):
             fn = model.func(ISO, f"MappingIsoparametric.{meth}")
             it = Interp(model)
             try:
@@ -327,7 +328,24 @@ def _iso_algebra(model, rep):
                 raise AnalysisError(f"MappingIsoparametric.{meth} "
                                     f"dim={dim}: {e}")
             cons = f"MappingIsoparametric.{meth}[dim={dim}]"
-            if kind == "det":
+            if kind == "jac":
+                off = [(i, j) for i in range(dim) for j in range(dim)
+                       if not (isinstance(r, Arr) and r.shape[:2] == (dim,
+                                                                      dim)
+                               and as_poly(_cell(r, (i, j))) == Jm[i, j])]
+                if not off:
+                    rep.ok(R1, cons, "DF[i, j] == J(i, j) = d F_i / d X_j")
+                else:
+                    i, j = off[0]
+                    rep.fail(R1, path, "MappingIsoparametric.DF", cons,
+                             f"DF[{i},{j}] is "
+                             f"{_cell(r, (i, j)) if isinstance(r, Arr) else r}"
+                             f", not J({i},{j}) = dF_{i}/dX_{j}: the "
+                             f"delivered Jacobian is not the derivative of "
+                             f"the map (transposed or mis-indexed), while "
+                             f"invDF and detDF are computed from J "
+                             f"directly", fn.lineno)
+            elif kind == "det":
                 if as_poly(r) == leibniz(Jm, dim):
                     rep.ok(R1, cons, "detDF == Leibniz determinant of J")
                 else:
@@ -1035,6 +1053,13 @@ def run(model: Model, rep, tier: str) -> None:
 _A, _I, _R = ("skfem/mapping/mapping_affine.py",
               "skfem/mapping/mapping_isoparametric.py", "skfem/refdom.py")
 MUTANTS = [
+    ("isoparametric DF collects the Jacobian entries transposed",
+     (_I, "            J = [[self.J(i, j, X, tind=tind) for j in "
+      "range(self.dim)]\n                 for i in range(self.dim)]\n"
+      "        return np.array(J)",
+      "            J = [[self.J(i, j, X, tind=tind) for i in "
+      "range(self.dim)]\n                 for j in range(self.dim)]\n"
+      "        return np.array(J)"), "C10-R1"),
     ("isoparametric map sizes its result by axis 1 of the points again",
      (_I, "            out = np.zeros((t.shape[1], X.shape[-1]))\n"
       "            for itr in range(t.shape[0]):\n"
